@@ -1,4 +1,4 @@
-use anyhow::Result;
+use anyhow::{bail, Result};
 use futures::{channel::mpsc, SinkExt};
 
 pub mod pubsub;
@@ -9,22 +9,6 @@ pub enum Socket<T, E> {
     Reqrep(reqrep::Socket<E>),
 }
 
-impl<T, E> Socket<T, E> {
-    fn unwrap_pubsub(self) -> pubsub::Socket<T, E> {
-        match self {
-            Self::Pubsub(s) => s,
-            _ => panic!("Attempted to unwrap non-pubsub socket"),
-        }
-    }
-
-    fn unwrap_reqrep(self) -> reqrep::Socket<E> {
-        match self {
-            Self::Reqrep(s) => s,
-            _ => panic!("Attempted to unwrap non-reqrep socket"),
-        }
-    }
-}
-
 pub enum Sender<T, E> {
     Pubsub(mpsc::Sender<pubsub::Socket<T, E>>),
     ReqRep(mpsc::Sender<reqrep::Socket<E>>),
@@ -32,9 +16,17 @@ pub enum Sender<T, E> {
 
 impl<T, E> Sender<T, E> {
     pub async fn send(&mut self, sock: Socket<T, E>) -> Result<()> {
-        match self {
-            Self::Pubsub(ref mut s) => s.send(sock.unwrap_pubsub()).await?,
-            Self::ReqRep(ref mut s) => s.send(sock.unwrap_reqrep()).await?,
+        match (self, sock) {
+            (Self::Pubsub(ref mut s), Socket::Pubsub(sock)) => s.send(sock).await?,
+            (Self::ReqRep(ref mut s), Socket::Reqrep(sock)) => s.send(sock).await?,
+            // The messaging pattern of a topic is fixed by its first registration. A peer
+            // asking for the other pattern is refused rather than panicking this task.
+            (Self::Pubsub(_), Socket::Reqrep(_)) => {
+                bail!("Cannot use a request/reply stream on a pub/sub topic")
+            }
+            (Self::ReqRep(_), Socket::Pubsub(_)) => {
+                bail!("Cannot use a pub/sub stream on a request/reply topic")
+            }
         }
 
         Ok(())
